@@ -5,7 +5,9 @@ package main
 
 import (
 	"encoding/json"
+	"fmt"
 	"math"
+	"strings"
 	"time"
 
 	"github.com/unixpickle/model3d/model2d"
@@ -146,6 +148,41 @@ func triPolygonSites(id *int, out *ndWriter, stats map[string]int, ring [][]int,
 			for k, c := range t {
 				for i, q := range poly {
 					// the face is rebuilt from a 2-D basis: coordinates are exact up to rounding
+					if q.Dist(c) < 1e-9 {
+						tri[k] = i + 1
+					}
+				}
+			}
+			rec.Tris = append(rec.Tris, tri)
+		}
+		emit(rec)
+	}
+	// the same planar face read from an OFF file (model3d.ReadOFF triangulates polygon faces)
+	if len(ring) >= 4 {
+		e := embeds[2]
+		poly := make([]model3d.Coord3D, len(ring))
+		var sb strings.Builder
+		fmt.Fprintf(&sb, "OFF\n%d 1 0\n", len(ring))
+		for i, p := range ring {
+			poly[i] = e.f(p)
+			fmt.Fprintf(&sb, "%g %g %g\n", poly[i].X, poly[i].Y, poly[i].Z)
+		}
+		fmt.Fprintf(&sb, "%d", len(ring))
+		for i := range ring {
+			fmt.Fprintf(&sb, " %d", i)
+		}
+		sb.WriteString("\n")
+		var res []*model3d.Triangle
+		var err error
+		rec := triRec{Site: "model3d.ReadOFF[" + e.name + "]"}
+		rec.Outcome, rec.Panic = withDeadline(3*time.Second, func() { res, err = model3d.ReadOFF(strings.NewReader(sb.String())) })
+		if rec.Outcome == "ok" && err != nil {
+			rec.Outcome, rec.Panic = "panic", "ReadOFF: "+err.Error()
+		}
+		for _, t := range res {
+			tri := []int{0, 0, 0}
+			for k, c := range t {
+				for i, q := range poly {
 					if q.Dist(c) < 1e-9 {
 						tri[k] = i + 1
 					}
